@@ -544,6 +544,21 @@ func c03Case(r *obs.Run, i int) {
 		r.Note(fmt.Sprintf("%s/%s/%x", kind, o.seq, hashBytes(data)), o.records > 0 || o.nonEOF > 0)
 	}
 	switch {
+	case i == 5 && (r.Batch < 2 || r.Thorough()): // a very tall input: one short line repeated a million and a half times
+		lines := []string{"##Type DNA", "", "# c", "##gff-version 2", "##source-version x", "##date 2020-1-01", ">", "@", "+", "x", "##type RNA r"}
+		line := lines[0]
+		if r.Batch > 0 {
+			line = lines[1+rng.Intn(len(lines)-1)]
+		}
+		n := 1500000
+		data := bytes.Repeat([]byte(line+"\n"), n)
+		c03Current.Store(fmt.Sprintf("%d lines %q", n, line))
+		r.Crumb(fmt.Sprintf("tall input: %d lines %q to every reader (a fatal stack overflow cannot be recovered: it shows as this child's crash)", n, line))
+		r.Count("tall_inputs", 1)
+		for _, k := range c03Kinds {
+			o := c03Drive(r, k, data, fmt.Sprintf("%d lines %q", n, line))
+			r.Note(fmt.Sprintf("tall/%s/%s/%s", k, line, o.seq), true)
+		}
 	case mode == 0: // random bytes to every reader
 		data := c03RandomBytes(rng)
 		c03Current.Store(fmt.Sprintf("random bytes %q", truncBytes(data, 200)))
